@@ -1477,3 +1477,23 @@ def run(ctx):
 #   N12 aiohttp.ClientConnectionError treated as a retry-once error                     caught  permanent/retried/unlisted-neighbour, unlisted/retried-then-raised
 # Not in the workload (would not be a classification question): aiohttp.ClientPayloadError() constructed without arguments makes is_transient_error itself raise
 # IndexError (`e.args[0]`), reported to the lead as a defect candidate.
+#
+# Server-wait-hint clause (added 2026-09-22 after seeded/C21-agent10 was missed: every response error of the workload had empty headers, a fixed body and no extra
+# attributes, so "within the documented bounds and never longer than the maximum" was only exercised as a function of the failure count -- a loop that reads a wait
+# out of the failure itself was indistinguishable from the documented one).  Rows of build_hints(), phases hint / random-hint, keys <existing key>/server-hint.
+# Scratch worktree, quick tier, seed 0, one edit at a time; unchanged tree silent: quick seeds 0..4, thorough seeds 0..2.
+#   seeded/C21-agent10  rate-limit branch waits max(backoff, Retry-After) "capped" by DEFAULT_MAX_DELAY_MS read as seconds   caught  delay/above-maximum/server-hint,
+#                                                                                                                             delay/above-jitter-ceiling/server-hint
+#   seeded/C21-agent2, -agent4, -agent6, -agent8                                                                              still caught (same keys as before; agent6 also
+#                                                                                                                             delay/below-jitter-floor/server-hint)
+#   H1  the same with the cap in the right unit (60 s)                                  caught  delay/above-jitter-ceiling/server-hint
+#   H2  any failure: wait exactly Retry-After (<= 60 s) instead of the backoff          caught  delay/below-jitter-floor/server-hint, delay/above-jitter-ceiling/server-hint
+#   H3  rate-limit failure with Retry-After > 60 s is given up (raised)                 caught  rate-limit/not-retried/server-hint (+ /implicit-context)
+#   H4  Google RetryInfo.retryDelay of the error body honoured, uncapped                caught  delay/above-maximum/server-hint
+#   H5  any response error with a Retry-After header counts as transient               caught  permanent/retried/server-hint, limited/more-than-five-retries/server-hint
+#   H6  Retry-After becomes the floor of all LATER waits of the call (<= 60 s)          caught  delay/above-jitter-ceiling/server-hint (waits after plain failures that follow a hinted one)
+#   H7  sync_retry_transient_errors sleeps Retry-After on top of the backoff            caught  delay/above-maximum/server-hint, delay/above-jitter-ceiling/server-hint [sync]
+#   H8  x-ms-retry-after-ms / Retry-After-Ms honoured, uncapped                         caught  delay/above-maximum/server-hint, delay/below-jitter-floor/server-hint
+#   H9  HTTP-date form of Retry-After honoured on rate-limit failures                   caught  delay/above-maximum/server-hint
+#   H10 a retry_after attribute of the exception honoured                               caught  delay/above-maximum/server-hint
+#   H11 X-RateLimit-Reset-After honoured when X-RateLimit-Remaining is 0 (<= 300 s)     caught  delay/above-maximum/server-hint
